@@ -101,7 +101,7 @@ func (g *Gen) Narrow(t Ty) Ty {
 	case "alias":
 		return g.Narrow(t.Ts[0])
 	case "any":
-		sub := &Gen{R: g.R, NoIter: g.NoIter, NoUnit: g.NoUnit}
+		sub := &Gen{R: g.R, NoIter: g.NoIter, NoUnit: g.NoUnit, Call: g.Call}
 		return sub.Ty(1)
 	case "scalar":
 		return g.pickTy([]Ty{Atom("sdata"), Atom("numeric"), Atom("str"), Bool(-1), Rx(""), Int(0, 5), Tspan(MinI, MaxI), StrVal("a")})
@@ -219,6 +219,18 @@ func (g *Gen) Narrow(t Ty) Ty {
 			return Rx(g.pickS(rxPool[1:]))
 		}
 		return t
+	case "call": // more specific: a narrower return type; the default gets a parameter list
+		ps := CallParts(t)
+		if ps[0] == nil && ps[1] == nil && ps[2] == nil {
+			p := Tup([]Ty{g.Leaf()})
+			return Call(&p, nil, nil)
+		}
+		if ps[1] != nil {
+			r := g.Narrow(*ps[1])
+			return Call(ps[0], &r, ps[2])
+		}
+		r := g.Leaf()
+		return Call(ps[0], &r, ps[2])
 	case "rt": // more specific: a runtime for the default, a name for an empty name, a pattern for none
 		switch {
 		case t.S[0] == "":
@@ -481,6 +493,18 @@ func (g *Gen) Widen(t Ty) Ty {
 			return Rx("")
 		}
 		return Atom("scalar")
+	case "call": // less specific: the default Callable, a wider return type, no return type
+		ps := CallParts(t)
+		switch g.n(3) {
+		case 0:
+			return Call(nil, nil, nil)
+		case 1:
+			if ps[1] != nil {
+				r := g.Widen(*ps[1])
+				return Call(ps[0], &r, ps[2])
+			}
+		}
+		return Call(ps[0], nil, ps[2])
 	case "rt": // less specific: drop the pattern, then the name, then the runtime
 		switch {
 		case len(t.S) > 2:
@@ -665,12 +689,21 @@ func hasRange(t Ty) bool {
 	return false
 }
 
+// rangeKids: the sub-terms WidenRange descends into — not the parts of a Callable (its parameter and block positions are
+// contravariant: a wider range there makes the Callable narrower; the law of C03 speaks of the ranges of the type itself)
+func rangeKids(t Ty) []Ty {
+	if t.K == "call" {
+		return nil
+	}
+	return t.Kids()
+}
+
 func countRanges(t Ty) int {
 	n := 0
 	if hasRange(t) {
 		n = 1
 	}
-	for _, k := range t.Kids() {
+	for _, k := range rangeKids(t) {
 		n += countRanges(k)
 	}
 	return n
@@ -685,7 +718,7 @@ func (g *Gen) widenNth(t Ty, k *int) (Ty, bool) {
 		}
 		*k--
 	}
-	for i, kid := range t.Kids() {
+	for i, kid := range rangeKids(t) {
 		r, ok := g.widenNth(kid, k)
 		if *k < 0 {
 			if !ok {
